@@ -136,7 +136,7 @@ def accessor_atom(rng, alias, kind, values, negate=None):
     if r < 0.65 or kind not in LIST_ACC:
         acc = rng.choice(sacc)
         pool = values.get((kind, acc)) or ["x"]
-        v = rng.choice(pool) if rng.random() < 0.8 else rng.choice(["nope", "SELECT", "a WHERE b", "x\"y", "two  blanks", "tab\there", " lead", "trail "])
+        v = rng.choice(pool) if rng.random() < 0.8 else rng.choice(["nope", "SELECT", "a WHERE b", "x\"y", "two  blanks", "tab\there", " lead", "trail ", "http://x/y", "a // b", "50%", "%s"])
         op = rng.choice(["==", "==", "!=", "==", "<", ">=", ">", "<="])
         lhs = [ident(alias), sym("."), ident(acc), sym("("), sym(")")]
         rhs = [strlit(esc_lit(v))]
@@ -287,7 +287,8 @@ def random_query(rng, kinds=None, values=None, n_entities=None, depth=3, n_preds
         else:
             content = rng.choice(["found", "a b", "x,y", "SELECT", "q\\\"uote", "tab\\\\t", "ünï", "WHERE it",
                                   "two  blanks", "tab\there", " lead", "trail ", "nb\u00a0sp", "a   b    c", "line\nbreak",
-                                  "uni\\\\u003c", "amp\\\\u0026"])
+                                  "uni\\\\u003c", "amp\\\\u0026",
+                                  "100%", "%d of %s done", "%!v(MISSING)", "http://x/y", "a // b", "/* c */", "--x", "#tag"])
             q.select_items.append(("string", '"' + content + '"'))
             q.select_tokens.append([strlit(content)])
     flatten(q)
